@@ -60,7 +60,18 @@ let run_o mvz toks =
       | SErr ((e, w), l) -> dead := true;
         acc := fmt ("ERR:" ^ err_s e ^ "@" ^ string_of_int (int_of_n w)) (evs_s l) (dump !s) :: !acc
       | SIll -> acc := fmt "ill" "" (dump !s) :: !acc in
-  List.iter (fun t -> do_op (parse_o t)) toks;
+  (* environment operations (getEnvVar.h): es:name:sid  eu:name  gv:slot:kind:name  (kind 0 int, 1 float, 2 string) *)
+  let env = ref env0 in
+  let do_tok t = match String.split_on_char ':' t with
+    | ["es"; n; sid] -> if not !dead then begin
+        env := fst (estep atoi_code atof_code !env (EnvSet (nn n, nn sid))); acc := fmt "ok" "" (dump !s) :: !acc end
+    | ["eu"; n] -> if not !dead then begin
+        env := fst (estep atoi_code atof_code !env (EnvUnset (nn n))); acc := fmt "ok" "" (dump !s) :: !acc end
+    | ["gv"; i; k; n] ->
+      let kd = (match k with "0" -> KInt | "1" -> KFloat | _ -> KStr) in
+      List.iter do_op (snd (estep atoi_code atof_code !env (GetEnv (nn i, kd, nn n))))
+    | _ -> do_op (parse_o t) in
+  List.iter do_tok toks;
   (* closing: destroy what is still alive, lowest index first *)
   if not !dead then begin
     let evs = ref [] in
